@@ -40,7 +40,7 @@ Definition aux_same (v v' : vm) :=
 Definition Post (c : compl) (v' : vm) (E : frame) (below : list frame) :=
   exists E', frames v' = E' :: below /\ same_shape E E' /\ c <> CPanic /\
     match c with
-    | CNormal => (pushed E = false /\ stack v' = fp E) \/ (pushed E = true /\ rp E + regs E <= stack v')
+    | CNormal => stack v' = fp E \/ (pushed E = true /\ rp E + regs E <= stack v')
     | _ => stack v' = fp E
     end.
 
@@ -159,7 +159,7 @@ Proof.
     rewrite EQ. rewrite <- EQ. apply IH; auto.
 Qed.
 
-Ltac dv v := destruct v as [fs st hd gs rl sl]; simpl in *.
+Ltac dv v := destruct v as [fs st hd gs rl sl pd]; simpl in *.
 
 Lemma handle_exception_at_spec v p E below v' :
   Inv (frames v) (stack v) E below -> handle_exception_at v p = Some v' ->
@@ -210,11 +210,11 @@ Proof.
   - destruct (handle_exception_at v (pc (top v) - 1)) as [v'|] eqn:HE.
     + apply (handle_exception_at_spec v _ E below v' I) in HE. destruct HE as (A & B & C & D).
       simpl. splits; auto. lia.
-    + apply handle_throw_spec; auto.
+    + exact (handle_throw_spec (set_pending v true) E below I).
   - destruct I as (seg & E' & H1 & H2 & H3 & H4 & H5 & H6). dv v. subst fs.
     assert (EE : exit_early E' = true) by (destruct H2 as (_ & _ & _ & X & _); congruence).
-    pose proof (error_loop_spec E' below EE seg None (envs (top (mkVm (seg ++ E' :: below) st hd gs rl sl))) H4) as EL.
-    destruct (error_loop (seg ++ E' :: below) None (envs (top (mkVm (seg ++ E' :: below) st hd gs rl sl)))) as ((frs & last) & efp).
+    pose proof (error_loop_spec E' below EE seg None (envs (top (mkVm (seg ++ E' :: below) st hd gs rl sl pd))) H4) as EL.
+    destruct (error_loop (seg ++ E' :: below) None (envs (top (mkVm (seg ++ E' :: below) st hd gs rl sl pd)))) as ((frs & last) & efp).
     simpl in EL. subst frs. unfold set_top, set_frames, trunc, top, aux_same. simpl. rewrite EE. simpl.
     splits; auto.
     exists (f_trunc_env E' efp). apply chain_last_fp in H6. sf.
@@ -254,18 +254,18 @@ Proof.
   - inversion H4 as [|? ? NA NE']; subst. destruct NA as (NA1 & NA2). congruence.
 Qed.
 
-Lemma gen_create_spec v E below :
-  Inv (frames v) (stack v) E below -> pushed (top v) = false -> GInv v ->
-  let '(v', c) := gen_create v in
+Lemma gen_create_spec start v E below :
+  Inv (frames v) (stack v) E below -> GInv v ->
+  let '(v', c) := gen_create start v in
   ctl_ok c v v' E below /\ aux_same v v' /\ GInv v' /\ exists g, gens v' = gens v ++ [g].
 Proof.
-  intros (seg & E' & H1 & H2 & H3 & H4 & H5 & H6) PF G. dv v. subst fs.
+  intros (seg & E' & H1 & H2 & H3 & H4 & H5 & H6) G. dv v. subst fs.
   assert (EE : exit_early E' = true) by (destruct H2 as (_ & _ & _ & X & _); congruence).
   unfold gen_create, handle_yield, top, trunc, pop_frame, GInv, aux_same in *. simpl in *.
   destruct seg as [|a seg]; simpl in *.
   - rewrite EE. simpl. splits; auto.
-    + exists E'. sf. left. unfold same_shape in *. split; [intuition congruence|]. assert (Nat.min st (fp E') = fp E') by lia. intuition congruence.
-    + apply Forall_app. split; auto. constructor; auto. sf.
+    + exists E'. sf.
+    + apply Forall_app. split; auto. constructor; auto. destruct start; sf.
     + eauto.
   - inversion H4 as [|? ? NA NE']; subst. destruct NA as (NA1 & NA2). rewrite NA1.
     assert (exists x y, seg ++ E' :: below = x :: y) as (x & y & EQ) by (destruct seg; simpl; eauto).
@@ -273,7 +273,7 @@ Proof.
     destruct H6 as (C1 & C2 & C3).
     splits; auto; try lia.
     + exists seg, E'. sf.
-    + apply Forall_app. split; auto. constructor; auto. sf.
+    + apply Forall_app. split; auto. constructor; auto. destruct start; sf.
     + eauto.
 Qed.
 
@@ -477,7 +477,7 @@ Proof. reflexivity. Qed.
 Lemma run_acts_ANil_eq fx v  :
   run_acts fx v (ANil) =
   (let '(v1, c) := handle_return v in
-      match c with Break k => (v1, Some k, []) | Continue => (v1, None, []) end).
+      match c with Break k => (v1, Some k, untidy v) | Continue => (v1, None, untidy v) end).
 Proof. reflexivity. Qed.
 
 Lemma run_acts_ACons_eq fx v a rest :
@@ -628,7 +628,10 @@ Lemma run_ract_RResume_eq fx v last g kind body :
         let v5 := set_stack v4 outer in
         match pop_frame v5 with
         | Some (f', v6) =>
-            let st := match c with CNormal => GYield gs' f' | _ => GDone end in
+            
+            let st := match c with
+                      | CNormal => if rp f' + regs f' <=? gs' then GYield gs' f' else GDone
+                      | _ => GDone end in
             let v7 := set_gens v6 (gens_set (gens v6) g st) in
             let '(v8, x, res, o2) := done v7 (compl_res c) in (v8, x, res, o ++ o2)
         | None => let '(v8, x, res, o2) := done v5 RPanic in (v8, x, res, o ++ o2)
@@ -653,6 +656,17 @@ Lemma run_ract_RBlock_eq fx v last body :
   let boundary v2 (r : option compl) := match r with Some c => c | None => escaped v2 end in
   let '(v2, r, o) := run_racts fx v ROk body in
       let '(v3, x, res, o2) := done v2 r in (v3, x, res, o ++ o2)).
+Proof. reflexivity. Qed.
+
+Lemma run_ract_RHostModuleLink_eq fx v last rg :
+  run_ract fx v last (RHostModuleLink rg) =
+  (let done v res := (v, @None rres, res, [ODone res (length (frames v)) (stack v) (hdepth v)]) in
+  let boundary v2 (r : option compl) := match r with Some c => c | None => escaped v2 end in
+  let v1 := push_frame (set_stack v (stack v + 2)) (ordinary_frame 0 rg [] false 0 0) in
+      match pop_frame v1 with
+      | Some (f, v2) => done (if fx_modlink fx then trunc v2 (fp f) else v2) ROk
+      | None => done v1 RPanic
+      end).
 Proof. reflexivity. Qed.
 
 Lemma run_ract_RReturn_eq fx v last  :
@@ -754,8 +768,8 @@ Proof.
 Qed.
 
 Lemma P_handlers :
-  (forall lf, P_act (ACallErr lf)) /\ P_act AReturn /\ P_act AYield /\ P_act AGenCreate /\ P_act AThrow /\
-  (forall b, P_act (ARethrow b)) /\ (forall c, P_act (AError c)).
+  (forall lf, P_act (ACallErr lf)) /\ P_act AReturn /\ P_act AYield /\ P_act AGenCreate /\ P_act AAwait /\ P_act AThrow /\
+  P_act ARethrow /\ P_act AException /\ (forall c, P_act (AError c)).
 Proof.
   splits.
   - intros lf v E below I G. cbn [run_act].
@@ -775,24 +789,33 @@ Proof.
   - intros v E below I G. cbn [run_act].
     destruct (pushed (top v)) eqn:PT.
     + splits; side.
-    + pose proof (gen_create_spec v E below I PT G) as X.
-      destruct (gen_create v) as (v1 & c). destruct X as (A & B & C & D). splits; auto.
+    + pose proof (gen_create_spec true v E below I G) as X.
+      destruct (gen_create true v) as (v1 & c). destruct X as (A & B & C & D). splits; auto.
       intros F; discriminate.
+  - intros v E below I G. cbn [run_act].
+    pose proof (gen_create_spec false v E below I G) as X.
+    destruct (gen_create false v) as (v1 & c). destruct X as (A & B & C & D). splits; auto.
+    intros F; discriminate.
+  - intros v E below I G. cbn [run_act]. cbv zeta.
+    assert (I0 : Inv (frames (set_pending v true)) (stack (set_pending v true)) E below) by exact I.
+    assert (G0 : GInv (set_pending v true)) by exact G.
+    destruct (handle_exception_at (set_pending v true) (pc (top (set_pending v true)) - 1)) as [v1|] eqn:HE.
+    + apply (handle_exception_at_spec _ _ E below v1 I0) in HE. destruct HE as (A & B & C & D).
+      apply (wrap_handler v v1 Continue E below true); auto. simpl. splits; auto.
+      simpl in B. lia.
+    + pose proof (handle_throw_spec (set_pending v true) E below I0) as X.
+      destruct (handle_throw fx_new (set_pending v true)) as (v1 & c).
+      apply (wrap_handler v v1 c E below true); auto.
   - intros v E below I G. cbn [run_act].
     destruct (handle_exception_at v (pc (top v) - 1)) as [v1|] eqn:HE.
     + apply (handle_exception_at_spec v _ E below v1 I) in HE. destruct HE as (A & B & C & D).
       apply wrap_handler; auto. simpl. splits; auto. lia.
-    + pose proof (handle_throw_spec v E below I) as X.
-      destruct (handle_throw fx_new v) as (v1 & c). apply wrap_handler; auto.
-  - intros b v E below I G. cbn [run_act].
-    destruct (handle_exception_at v (pc (top v) - 1)) as [v1|] eqn:HE.
-    + apply (handle_exception_at_spec v _ E below v1 I) in HE. destruct HE as (A & B & C & D).
-      apply wrap_handler; auto. simpl. splits; auto. lia.
-    + destruct b.
+    + destruct (pending v).
       * pose proof (handle_throw_spec v E below I) as X.
         destruct (handle_throw fx_new v) as (v1 & c). apply wrap_handler; auto.
       * pose proof (handle_return_spec v E below I) as X.
         destruct (handle_return v) as (v1 & c). apply wrap_handler; auto. tauto.
+  - intros v E below I G. cbn [run_act]. splits; side.
   - intros c v E below I G. cbn [run_act].
     pose proof (handle_error_spec v E below c I) as X.
     destruct (handle_error fx_new v c) as (v1 & k). apply wrap_handler; auto.
@@ -988,7 +1011,7 @@ Proof.
   destruct X as ((E' & P1 & P2 & P3 & P4) & X2 & X3 & X4).
   exists E'. splits; auto.
   destruct (match r with Some c => c | None => escaped v2 end); auto.
-  destruct P4 as [(_ & Q)|(Q & _)]; [auto|congruence].
+  destruct P4 as [Q|(Q & _)]; [auto|congruence].
 Qed.
 
 Lemma P_ract_simple :
@@ -1031,6 +1054,16 @@ Proof.
   destruct IH as (F & S & A & G2 & K & OK). cbn [fst snd].
   splits; auto; try congruence.
   intros _. split; [|exact I]. apply OK. discriminate.
+Qed.
+
+Lemma P_RHostModuleLink rg : P_ract (RHostModuleLink rg).
+Proof.
+  intros v last (NE & G). rewrite run_ract_RHostModuleLink_eq. cbv beta zeta.
+  set (E := mkF (stack v + 2 - 0 - 2) (stack v + 2) rg 0 false false 0 (0 + 0) 0 []).
+  set (v1 := push_frame (set_stack v (stack v + 2)) (ordinary_frame 0 rg [] false 0 0)).
+  assert (F1 : frames v1 = E :: frames v) by reflexivity.
+  rewrite (pop_frame_cons v1 E (frames v) F1 NE). simpl.
+  splits; side; try rok.
 Qed.
 
 Lemma P_RHostConstructNative ac body : P_racts body -> P_ract (RHostConstructNative ac body).
@@ -1183,7 +1216,9 @@ Definition start_resume_expr (v : vm) (g : nat) (body : acts) (gs : nat) (f : fr
   let v5 := set_stack v4 outer in
   match pop_frame v5 with
   | Some (f', v6) =>
-      let st := match c with CNormal => GYield gs' f' | _ => GDone end in
+      let st := match c with
+                | CNormal => if rp f' + regs f' <=? gs' then GYield gs' f' else GDone
+                | _ => GDone end in
       let v7 := set_gens v6 (gens_set (gens v6) g st) in
       let '(v8, x, res, o2) := done_r v7 (compl_res c) in (v8, x, res, o ++ o2)
   | None => let '(v8, x, res, o2) := done_r v5 RPanic in (v8, x, res, o ++ o2)
@@ -1239,9 +1274,8 @@ Proof.
   all: try (solve [simpl; lia]).
   unfold GInv. simpl. apply gens_set_wf; auto.
   destruct (match r with Some c => c | None => escaped v4 end); simpl; auto.
-  destruct P4 as [(Q & _)|(_ & Q)].
-  + subst E. simpl in Q. congruence.
-  + subst E. simpl in Q. splits; try tauto. destruct SH as (_ & _ & R1 & R2). rewrite R1, R2. exact Q.
+  destruct (rp E' + regs E' <=? stack v4) eqn:LE; simpl; auto.
+  apply Nat.leb_le in LE. tauto.
 Qed.
 
 Lemma P_RResume g kind body : P_acts body -> P_ract (RResume g kind body).
@@ -1270,10 +1304,10 @@ Theorem tree_spec :
   (forall a, P_act a) /\ (forall l, P_acts l) /\ (forall r, P_ract r) /\ (forall l, P_racts l).
 Proof.
   destruct P_simple as (S1 & S2 & S3 & S4 & S5 & S6).
-  destruct P_handlers as (H1 & H2 & H3 & H4 & H5 & H6 & H7).
+  destruct P_handlers as (H1 & H2 & H3 & H4 & H4' & H5 & H6 & H6' & H7).
   destruct P_ract_simple as (R1 & R2 & R3 & R4 & R5).
   apply tree_mutind; intros; auto using P_ACall, P_ACallNative, P_ARust, P_ANil, P_ACons, P_RHostEval, P_RHostCall,
-    P_RHostCallNative, P_RHostConstruct, P_RHostConstructNative, P_RResume, P_RBlock, P_RNil, P_RCons.
+    P_RHostCallNative, P_RHostConstruct, P_RHostConstructNative, P_RResume, P_RBlock, P_RHostModuleLink, P_RNil, P_RCons.
 Qed.
 
 (* ------------------------------------------------------------------------------------------ *)
@@ -1314,13 +1348,14 @@ Proof.
 Qed.
 
 Lemma vm_eta v v' :
-  frames v' = frames v -> stack v' = stack v -> aux_same v v' -> gens v' = gens v -> v' = v.
+  frames v' = frames v -> stack v' = stack v -> aux_same v v' -> gens v' = gens v -> pending v' = pending v -> v' = v.
 Proof.
   destruct v, v'. unfold aux_same. simpl. intros; intuition subst; reflexivity.
 Qed.
 
 (* a failed entry that touches no generator leaves the whole modelled state unchanged *)
 Lemma entry_state_lemma : forall v e, wf v -> genfree_ract e = true ->
+  pending (fst (run_entry fx_new v e)) = pending v ->
   fst (run_entry fx_new v e) = v.
 Proof.
   intros v e W GF. unfold run_entry.
@@ -1335,12 +1370,13 @@ Proof.
   destruct (run_ract fx_new v ROk e) as (((v' & x) & l') & o). simpl. tauto.
 Qed.
 
-(* every failed entry of the history is generator-free (checked along the run) *)
+(* every failed entry of the history is generator-free and leaves no exception pending that was not pending
+   before (checked along the run; `pending_settled` shows when the second part holds) *)
 Fixpoint failed_genfree (v : vm) (h : list ract) : bool :=
   match h with
   | [] => true
   | e :: t => let '(v1, r) := run_entry fx_new v e in
-              (is_ok r || genfree_ract e) && failed_genfree v1 t
+              (is_ok r || (genfree_ract e && Bool.eqb (pending v1) (pending v))) && failed_genfree v1 t
   end.
 
 Lemma failed_invisible_lemma : forall h v, wf v -> failed_genfree v h = true ->
@@ -1354,8 +1390,10 @@ Proof.
   apply andb_prop in FG. destruct FG as (FG1 & FG2).
   destruct r; simpl in *.
   - rewrite RE. f_equal. apply IH; auto.
-  - rewrite ST in *; auto. 
-  - rewrite ST in *; auto.
+  - apply andb_prop in FG1. destruct FG1 as (GF & PE). apply Bool.eqb_prop in PE.
+    specialize (ST GF PE). subst v1. auto.
+  - apply andb_prop in FG1. destruct FG1 as (GF & PE). apply Bool.eqb_prop in PE.
+    specialize (ST GF PE). subst v1. auto.
 Qed.
 
 (* ------------------------------------------------------------------------------------------ *)
@@ -1373,6 +1411,12 @@ Definition w_error : ract := RHostEval 3 [] 0 0 true (al [AError false]).
 Definition w_call : ract := RHostCallErr 0 true.
 (* a script whose global declaration instantiation fails *)
 Definition w_decl : ract := RHostEval 3 [] 0 0 false ANil.
+(* linking a source-text module whose code block has 2 registers *)
+Definition w_modlink : ract := RHostModuleLink 2.
+(* `try { throw 1 } catch (e) { throw 2 } finally { for(;;){} }`: an engine error while an exception is pending *)
+Definition w_pending : ract :=
+  RHostEval 6 [mkH 2 10 0; mkH 2 20 0] 0 0 true
+    (al [ASetPc 5; AThrow; AException; ASetPc 15; AThrow; AError false]).
 (* a successful evaluation: `function f(a){ return a } f(1);` *)
 Definition w_ok : ract :=
   RHostEval 3 [] 0 0 true (al [APush 3; ACall 1 2 [] false 0 0 (al [AReturn]); APop 1]).
@@ -1383,11 +1427,13 @@ Lemma balanced_refuted_lemma :
 Proof. exists w_throw. vm_compute. auto. Qed.
 
 Lemma each_fix_needed_lemma :
-  stack (fst (run_entry (mkFx false true true true) (init 512 1024) w_throw)) = 9 /\
-  stack (fst (run_entry (mkFx true false true true) (init 512 1024) w_error)) = 5 /\
-  stack (fst (run_entry (mkFx true true false true) (init 512 1024) w_call)) = 2 /\
-  stack (fst (run_entry (mkFx true true true false) (init 512 1024) w_decl)) = 5.
-Proof. vm_compute. auto. Qed.
+  stack (fst (run_entry (mkFx false true true true true true) (init 512 1024) w_throw)) = 9 /\
+  stack (fst (run_entry (mkFx true false true true true true) (init 512 1024) w_error)) = 5 /\
+  stack (fst (run_entry (mkFx true true false true true true) (init 512 1024) w_call)) = 2 /\
+  stack (fst (run_entry (mkFx true true true false true true) (init 512 1024) w_decl)) = 5 /\
+  stack (fst (run_entry (mkFx true true true true false true) (init 512 1024) w_modlink)) = 4 /\
+  pending (fst (run_entry (mkFx true true true true true false) (init 512 1024) w_pending)) = true.
+Proof. vm_compute. repeat split; reflexivity. Qed.
 
 (* under a small stack-size limit one failed evaluation changes the answer of a later successful one *)
 Lemma invisible_refuted_lemma :
